@@ -267,6 +267,15 @@ theorem bellerophon_sound_untruncated (F : FTy) (hF : IsLemireFloat F) (n : Num)
 /-- the hypothesis on truncated mantissas holds for what `parse_number` produces: 19 significant digits -/
 example : (2 : Nat) ^ 44 ≤ 10 ^ 18 := by decide
 
+/-- non-vacuity of the truncated case: `3000000000000000000…e7` with more digits following (`many_digits`):
+`bellerophon` answers validly, and `TrueValue` holds e.g. for the literal `30000000000000000005e6` -/
+example : Bellerophon.bellerophon FTy.f64 (Gen.Bellerophon.CompactRadix.powers 10)
+      ⟨3000000000000000000, 7, false, true⟩ false = .ok ⟨2481319682245593, 1107⟩ ∧
+    LexVerif.Proof.Bell.TrueValue 10 ⟨3000000000000000000, 7, false, true⟩ (30000000000000000005 * 10 ^ 6) 1 := by
+  refine ⟨by decide +kernel, ?_⟩
+  unfold LexVerif.Proof.Bell.TrueValue
+  decide +kernel
+
 /-- non-vacuity: a decided and an undecided decimal case (values from the compiled crate, op `bel`) -/
 example : Bellerophon.bellerophon FTy.f64 (Gen.Bellerophon.CompactRadix.powers 10) ⟨12345, 10, false, false⟩ false =
       .ok ⟨3397200372629504, 1069⟩ ∧
